@@ -53,7 +53,70 @@ def cases(tier, seed):
     for fields in ('cells', 'floats'):
         for second in ('watch', 'all_frame'):
             out.append({'k': 'ondemand', 'fields': fields, 'second': second})
+    # the walk of a value fails part-way (whatever the value does when it is looked at): at every call of the two steps of the walk,
+    # in the frame collection and in each watch; later watches / log fields name parts of the value the failed walk had reached
+    for seam in ('process_variable', 'process_child_nodes'):
+        for wl in range(len(FAULTY_WATCHES)):
+            out.append({'k': 'faulty', 'seam': seam, 'watches': wl})
     return out
+
+
+FAULTY_WATCHES = [['g', 'g.stats'], ['g.stats', 'g'], ['g', 'g.stats', "g.stats['hits']"], ['g', '[g.stats]'], ['g', 'g.routes', 'g']]
+
+
+class WalkFails(BaseException):
+    pass
+
+
+def run_faulty(ctx, desc):
+    import deep.processor.variable_set_processor as VSP
+    seam, watches = desc['seam'], FAULTY_WATCHES[desc['watches']]
+    real = getattr(VSP, seam)
+
+    def build():
+        g = graphs.Obj()
+        g.stats = {'hits': [1, 2, 3]}
+        g.routes = {'index': ['GET', 'POST'], 'about': ('GET',)}
+        g.name = 'registry'
+        return {'d': [[[[[g]]]]], 'z': 7}       # below MAX_VAR_DEPTH: only the watches reach g
+
+    def take(fail_at):
+        calls = {'n': 0}
+
+        def wrapped(*a, **k):
+            n = calls['n']
+            calls['n'] += 1
+            if n == fail_at:
+                raise WalkFails('walk step %d' % n)
+            return real(*a, **k)
+        setattr(VSP, seam, wrapped)
+        try:
+            loc = build()
+            ws = [w.replace('g', 'd[0][0][0][0][0]', 1) if w.startswith('g') else w.replace('g.', 'd[0][0][0][0][0].') for w in watches]
+            agent, run, info = snapref.take(loc, [{'watches': ws, 'log_msg': 'stats {d[0][0][0][0][0].stats}'}], plugins=[rig.RecLogger(rig.Journal())])
+        finally:
+            setattr(VSP, seam, real)
+        return agent, run, calls['n']
+
+    agent, run, total = take(-1)
+    for k in range(total):
+        agent, run, _ = take(k)
+        ctx.case()
+        ctx.nt(('faulty', seam, desc['watches'], k))
+        case = dict(desc, fail_at=k)
+        if run.escaped:
+            ctx.violation(f'C07/faulty/raised-into-host/{seam}', f'watches {watches}, call #{k} of {seam} fails: handler raised {run.escaped[0][1]!r}', case)
+            return
+        if len(agent.snapshots) != 1:
+            ctx.violation(f'C07/faulty/no-snapshot/{seam}', f'watches {watches}, call #{k} of {seam} (of {total}) fails: {len(agent.snapshots)} snapshots delivered', case)
+            continue
+        snap = agent.snapshots[0]
+        probs = snapref.closure_problems(snap)
+        ctx.outcome(('faulty', seam, len(snap.var_lookup), tuple(bool(w.error) for w in snap.watches)))
+        if probs:
+            ctx.violation(f'C07/dangling/{probs[0][0]}/walk-failed-part-way', f'watches {watches}, call #{k} of {seam} (of {total}) fails: unresolved references {probs[:2]}; '
+                          f'table ids {sorted(snap.var_lookup, key=int)}', case)
+            continue
 
 
 def alias_expr(spec):
@@ -304,6 +367,8 @@ def run_case(ctx, desc):
         return run_ondemand(ctx, desc)
     if desc['k'] == 'bigwatch':
         return run_bigwatch(ctx, desc)
+    if desc['k'] == 'faulty':
+        return run_faulty(ctx, desc)
     if desc['k'] == 'one':
         return check_one(ctx, desc)
     if desc['k'] == 'big':
